@@ -86,18 +86,57 @@ theorem faithfulC_stride1 (cfg : Cfg) (h : cfg.ifbStride = 1) (cs : Cases) : fai
   | case v vs b cs => simp [faithfulC, faithfulB_stride1 cfg h b, faithfulC_stride1 cfg h cs]
 end
 
+/-! ## events of a leaf -/
+
+/-- everything an assembled leaf does, in order: the label in front (`labelPart`), then the statement -/
+def leafEvs (l : Leaf) : List Ev :=
+  (if (!l.isMacro || !l.intLabel) && l.labelPresent then [.define l.sym] else []) ++ l.exec
+
+/-- the events of a list of assembled leaves -/
+def evs (ls : List Leaf) : List Ev := ls.flatMap leafEvs
+
+@[simp] theorem evs_nil : evs [] = [] := rfl
+@[simp] theorem evs_append (a b : List Leaf) : evs (a ++ b) = evs a ++ evs b := by simp [evs]
+@[simp] theorem evs_singleton (l : Leaf) : evs [l] = leafEvs l := by simp [evs]
+
+theorem filterMap_evs {α} (f : Ev → Option α) (ls : List Leaf) :
+    (evs ls).filterMap f = ls.flatMap (fun l => (leafEvs l).filterMap f) := by
+  induction ls with
+  | nil => rfl
+  | cons l ls ih =>
+    have : evs (l :: ls) = leafEvs l ++ evs ls := by simp [evs]
+    rw [this, List.filterMap_append, ih]; simp
+
+/-- the model's label condition and statement execution give the documented code, definitions and references -/
+theorem leafEvs_code (l : Leaf) : (leafEvs l).filterMap Ev.code? = l.code := by
+  obtain ⟨m, k, s⟩ := l
+  cases k <;> rfl
+theorem leafEvs_define (l : Leaf) : (leafEvs l).filterMap Ev.define? = l.defines := by
+  obtain ⟨m, k, s⟩ := l
+  cases k <;> rfl
+theorem leafEvs_use (l : Leaf) : (leafEvs l).filterMap Ev.use? = l.uses := by
+  obtain ⟨m, k, s⟩ := l
+  cases k <;> rfl
+
+theorem evs_code (ls : List Leaf) : (evs ls).filterMap Ev.code? = codeOf ls := by
+  rw [filterMap_evs]; simp only [leafEvs_code]; rfl
+theorem evs_define (ls : List Leaf) : (evs ls).filterMap Ev.define? = definedBy ls := by
+  rw [filterMap_evs]; simp only [leafEvs_define]; rfl
+theorem evs_use (ls : List Leaf) : (evs ls).filterMap Ev.use? = usedBy ls := by
+  rw [filterMap_evs]; simp only [leafEvs_use]; rfl
+
 /-! ## frame predicate -/
 
 /-- a flattened skeleton/block leaves the machine's control state alone, reports nothing but
 "no CASE hit" warnings, and emits exactly `emitted` if it was active and nothing otherwise -/
-structure Same (m m' : M) (emitted : List Nat) : Prop where
+structure Same (m m' : M) (emitted : List Leaf) : Prop where
   ifAsm : m'.ifAsm = m.ifAsm
   stack : m'.stack = m.stack
   crashed : m'.crashed = false
   errs : Warned m.errs m'.errs
-  out : m'.out = (if m.ifAsm then emitted.reverse else []) ++ m.out
+  out : m'.out = (if m.ifAsm then (evs emitted).reverse else []) ++ m.out
 
-theorem same_trans {m m1 m2 : M} {a b : List Nat} (h1 : Same m m1 a) (h2 : Same m1 m2 b) :
+theorem same_trans {m m1 m2 : M} {a b : List Leaf} (h1 : Same m m1 a) (h2 : Same m1 m2 b) :
     Same m m2 (a ++ b) := by
   refine ⟨by rw [h2.ifAsm, h1.ifAsm], by rw [h2.stack, h1.stack], h2.crashed,
     warned_trans h1.errs h2.errs, ?_⟩
@@ -109,9 +148,14 @@ theorem same_refl (m : M) (hc : m.crashed = false) : Same m m [] :=
 
 /-! ## named intermediate states and one-statement lemmas -/
 
-theorem run_leaf (m : M) (hc : m.crashed = false) (k : Nat) :
-    run cfg m [.leaf k] = if m.ifAsm then { m with out := k :: m.out } else m := by
-  simp [run, step, hc]
+theorem run_leaf (m : M) (hc : m.crashed = false) (k : Leaf) :
+    run cfg m [.leaf k] = if m.ifAsm then { m with out := (leafEvs k).reverse ++ m.out } else m := by
+  by_cases h : m.ifAsm <;> by_cases h1 : (!k.isMacro || !k.intLabel) = true <;> by_cases h2 : k.labelPresent = true <;>
+    simp [run, step, hc, labelPart, leafEvs, h, h1, h2]
+
+theorem step_leaf (m : M) (hc : m.crashed = false) (k : Leaf) :
+    step cfg m (.leaf k) = if m.ifAsm then { m with out := (leafEvs k).reverse ++ m.out } else m :=
+  run_leaf (cfg := cfg) m hc k
 
 theorem codeIF_flat (m : M) (c : Cond) :
     codeIF cfg m c.argc c = pushIF m (if m.ifAsm then evalCond cfg c else true) := by
@@ -195,18 +239,18 @@ theorem caseLoop_contains (x : Val) (l : List Val) : caseLoop (some x) l = l.con
 
 /- the selection with the model's own IFB verdicts (`evalCond`) instead of the documented ones -/
 mutual
-def msel (cfg : Cfg) : Skel → List Nat
+def msel (cfg : Cfg) : Skel → List Leaf
   | .leaf m => [m]
   | .ladder c b e => if evalCond cfg c then mselB cfg b else mselE cfg e
   | .switch v pre cs => mselB cfg pre ++ mselC cfg v cs
-def mselB (cfg : Cfg) : Block → List Nat
+def mselB (cfg : Cfg) : Block → List Leaf
   | .nil => []
   | .cons s b => msel cfg s ++ mselB cfg b
-def mselE (cfg : Cfg) : Elifs → List Nat
+def mselE (cfg : Cfg) : Elifs → List Leaf
   | .done => []
   | .els b => mselB cfg b
   | .elif c b e => if c then mselB cfg b else mselE cfg e
-def mselC (cfg : Cfg) (x : Val) : Cases → List Nat
+def mselC (cfg : Cfg) (x : Val) : Cases → List Leaf
   | .done => []
   | .elsecase b => mselB cfg b
   | .case v vs b cs => if (v :: vs).contains x then mselB cfg b else mselC cfg x cs
@@ -310,7 +354,7 @@ theorem flatE_ok (e : Elifs) (m : M) (f : Frame) (rest : List Frame) (hc : m.cra
       (f'.state = .ifif ∨ f'.state = .ifelse) ∧
       (run cfg m (flatE e)).crashed = false ∧
       Warned m.errs (run cfg m (flatE e)).errs ∧
-      (run cfg m (flatE e)).out = (if f.saveIfAsm && !f.caseFound then (mselE cfg e).reverse else []) ++ m.out := by
+      (run cfg m (flatE e)).out = (if f.saveIfAsm && !f.caseFound then (evs (mselE cfg e)).reverse else []) ++ m.out := by
   cases e with
   | done => exact ⟨f, by simp [flatE, run_nil, hst], rfl, Or.inl hstate, by simpa [flatE, run_nil] using hc,
       by simpa [flatE, run_nil] using warned_refl _, by simp [flatE, run_nil, mselE]⟩
@@ -343,7 +387,7 @@ theorem flatC_ok (cs : Cases) (x : Val) (m : M) (f : Frame) (rest : List Frame) 
       (f'.state = .caseswitch ∨ f'.state = .casecase ∨ f'.state = .caseelse) ∧
       (run cfg m (flatC cs)).crashed = false ∧
       Warned m.errs (run cfg m (flatC cs)).errs ∧
-      (run cfg m (flatC cs)).out = (if f.saveIfAsm && !f.caseFound then (mselC cfg x cs).reverse else []) ++ m.out := by
+      (run cfg m (flatC cs)).out = (if f.saveIfAsm && !f.caseFound then (evs (mselC cfg x cs)).reverse else []) ++ m.out := by
   cases cs with
   | done =>
     refine ⟨f, by simp [flatC, run_nil, hst], rfl, ?_, by simpa [flatC, run_nil] using hc,
@@ -378,6 +422,19 @@ theorem flatC_ok (cs : Cases) (x : Val) (m : M) (f : Frame) (rest : List Frame) 
     · simp [afterCase, caseEq, hs]
 end
 
+/-- a whole pass over a faithful skeleton: the events are exactly those of the documented selection, the control
+state is as at the start -/
+theorem select_out (b : Block) (hf : faithfulB cfg b = true) :
+    endPass (run cfg init (flatB b)) = run cfg init (flatB b) ∧
+    (run cfg init (flatB b)).out.reverse = evs (selB b) ∧ (run cfg init (flatB b)).stack = [] ∧
+    (run cfg init (flatB b)).ifAsm = true ∧ (run cfg init (flatB b)).crashed = false ∧
+    Warned [] (run cfg init (flatB b)).errs := by
+  have h := flatB_ok (cfg := cfg) b init rfl
+  have hst : (run cfg init (flatB b)).stack = [] := h.stack
+  refine ⟨by simp [endPass, h.crashed, hst], ?_, hst, h.ifAsm, h.crashed, h.errs⟩
+  rw [h.out, ← mselB_eq b hf]
+  simp [init]
+
 /-! ## lock step with the pushdown recogniser -/
 
 def stOf : Open → St
@@ -394,7 +451,10 @@ theorem step_errs (m : M) (s : Stmt) : ∃ l, (step cfg m s).errs = l ++ m.errs 
   split
   · exact ⟨[], rfl⟩
   · cases s with
-    | leaf k => by_cases h : m.ifAsm <;> simp [h] <;> exact ⟨[], rfl⟩
+    | leaf k =>
+      refine ⟨[], ?_⟩
+      simp only [labelPart]
+      (repeat' split) <;> rfl
     | iff argc c =>
       simp only [codeIF]
       split
@@ -499,7 +559,8 @@ theorem lock_step (m : M) (st : List Open) (s : Stmt) (h : Agree m st) :
   obtain ⟨hc, hmap⟩ := h
   cases s with
   | leaf k =>
-    by_cases hi : m.ifAsm <;> simp [wnStep, step, hc, hi, Agree, hmap, warned_refl]
+    rw [step_leaf m hc k]
+    by_cases hi : m.ifAsm <;> simp [wnStep, hc, hi, Agree, hmap, warned_refl]
   | iff argc c =>
     simp only [wnStep, step, hc, codeIF, Bool.false_eq_true, if_false]
     by_cases hi : m.ifAsm
